@@ -25,9 +25,9 @@ def sh(cmd, cwd, timeout=1800):
 
 def main():
     wt, prop = os.path.abspath(sys.argv[1]), sys.argv[2]
-    suffixes = sys.argv[3:5]
+    suffixes = sys.argv[3:]
     assert not wt.startswith('/repo') and not wt.startswith('/verif')
-    for letter, suf in zip('ab', suffixes):
+    for letter, suf in zip('abcdefgh', suffixes):
         diff, demo = os.path.join(wt, 'seed_%s.diff' % letter), os.path.join(wt, 'demo_%s.py' % letter)
         sid = '%s_%s' % (prop, suf)
         if not (os.path.exists(diff) and os.path.exists(demo)):
@@ -56,7 +56,7 @@ def main():
         shutil.copy(demo, os.path.join(dest, 'demo.py'))
         head = sh('git -C /repo rev-parse --short HEAD', VERIF)[1].strip()
         meta = {
-            'id': sid, 'breaks_property': prop, 'round': 2, 'base_commit': head,
+            'id': sid, 'breaks_property': prop, 'round': 6, 'base_commit': head,
             'needs_to_manifest': '(see the demonstration; summary to be filled in from the author report)',
             'author': 'independent sub-agent given only the property text and a scratch worktree (round 2: asked for '
                       'indirect causes rather than the most obvious edit)',
